@@ -1,17 +1,28 @@
-(* C19 — producing output is a pure observation of parser state. *)
+(* C19 — producing output is a pure observation of parser state. Proofs in Proofs/ParserProofs.v. *)
 From Coq Require Import String Ascii List.
-From Bkl Require Import Model.Value Model.Eval Model.Parser.
+From Bkl Require Import Model.Value Model.Eval Model.Parser Proofs.ParserProofs.
 Import ListNotations.
-
-Definition is_observer (x : op) : bool := match x with ODocuments | OOutput => true | _ => false end.
 
 (* an output or Documents call leaves the parser state exactly as it was *)
 Theorem C19_observer_pure : forall o st x, is_observer x = true -> fst (step o st x) = st.
-Proof. intros o st x H. unfold step. destruct (failed st); [reflexivity|]. destruct x; try discriminate; reflexivity. Qed.
+Proof. exact observer_pure. Qed.
 Print Assumptions C19_observer_pure.
 
 (* calling it again returns the same answer, whatever observers ran in between *)
 Theorem C19_repeatable : forall o st x y, is_observer x = true -> is_observer y = true ->
   snd (step o (fst (step o st x)) y) = snd (step o st y).
-Proof. intros o st x y Hx Hy. rewrite (C19_observer_pure o st x Hx). reflexivity. Qed.
+Proof. intros o st x y Hx Hy. rewrite (observer_pure o st x Hx). reflexivity. Qed.
 Print Assumptions C19_repeatable.
+
+(* for every history: merging further layers after output calls behaves exactly as if output had never been
+   requested — same final state, same results of every non-observer call *)
+Theorem C19_history : forall o ops st,
+  fst (run o st ops) = fst (run o st (filter (fun x => negb (is_observer x)) ops)) /\
+  filter is_merge_out (snd (run o st ops)) = filter is_merge_out (snd (run o st (filter (fun x => negb (is_observer x)) ops))).
+Proof. intros o ops st. apply run_without_observers. Qed.
+Print Assumptions C19_history.
+
+(* the documents exposed are the merged, unevaluated trees: Documents() is a projection of the state *)
+Theorem C19_documents : forall o st, failed st = false -> step o st ODocuments = (st, RDocs (documents st)).
+Proof. intros o st H. unfold step. now rewrite H. Qed.
+Print Assumptions C19_documents.
